@@ -6,6 +6,7 @@ import (
 	"go/token"
 	"go/types"
 	"math/big"
+	"os"
 	"strings"
 )
 
@@ -182,6 +183,12 @@ func (ec *evalCtx) callWith(call *ast.CallExpr, recv Value, args []Value) Value 
 			if fs, ok := fn.Type().(*types.Signature); ok && fs.Recv() != nil && fs.Params().Len() == 1 && fs.Results().Len() == 3 &&
 				types.TypeString(fs.Params().At(0).Type(), nil) == "*github.com/a-h/parse.Input" && isErrorType(fs.Results().At(2).Type()) {
 				ec.e().trusted["methods with the shape of parse.Parser.Parse are assumed to satisfy its interface contract ("+fn.FullName()+")"] = true
+				// the contract is written over the interface method's parameter names
+				if im := ec.e().ifaceMethod(ic); im != nil {
+					return ec.applyContract(ic, im, call, nil, args, sig)
+				} else if os.Getenv("GOVC_DEBUG") != "" {
+					fmt.Fprintf(os.Stderr, "ifaceMethod nil: pkg=%q recv=%q name=%q havepkg=%v\n", ic.Pkg, ic.Recv, ic.Name, ec.e().pkgs[ic.Pkg] != nil)
+				}
 				return ec.applyContract(ic, fn, call, recv, args, sig)
 			}
 		}
@@ -505,8 +512,24 @@ func (ec *evalCtx) applyContract(c *Contract, fn *types.Func, call *ast.CallExpr
 		if rootIsCV(m) || c.Iface {
 			nv = e.freshLike(ec.st, lv.get(), stripPkg(c.Name)+"."+c.ModText[mi])
 		} else {
-			mt := e.typeOfSpecExpr(c, m)
-			nv = e.freshValue(ec.st, stripPkg(c.Name)+"."+c.ModText[mi], mt, false)
+			var mt types.Type
+			func() {
+				defer func() {
+					if r := recover(); r != nil {
+						if _, ok := r.(unsupportedErr); !ok {
+							panic(r)
+						}
+					}
+				}()
+				mt = e.typeOfSpecExpr(c, m)
+			}()
+			if mt != nil {
+				nv = e.freshValue(ec.st, stripPkg(c.Name)+"."+c.ModText[mi], mt, false)
+			} else {
+				// e.g. an unexported field of another package's type (modelled from its source): a fresh value
+				// of the shape the location holds now
+				nv = e.freshLike(ec.st, lv.get(), stripPkg(c.Name)+"."+c.ModText[mi])
+			}
 		}
 		lv.set(nv)
 		// by-value slice parameter with element writes: the caller's variable changes too
